@@ -61,6 +61,7 @@ fn main() {
                 light: a.contains_key("light"),
                 split: a.contains_key("split"),
                 lower_only: a.contains_key("lower-only"),
+                ops: a.get("ops").map(|s| s.split(',').map(|x| x.to_string()).collect()).unwrap_or_default(),
                 max_events: get("max-events", "100000000").parse().unwrap(),
             });
             let r = lts::run_walk(lts.clone(), o);
@@ -75,7 +76,7 @@ fn main() {
             let o = lts::WalkOpts {
                 cfg: get("cfg", "fault(mem)"), names: get("names", "ascii"), b: get("b", "1").parse().unwrap(), mode: "faults".into(), frac: 1.0,
                 seed: get("seed", "1").parse().unwrap(), out: PathBuf::from(get("out", "work/faults")), threads: 1, walks: 0, len: 0, light: false,
-                split: a.contains_key("split"), lower_only: false, max_events: 100000000,
+                split: a.contains_key("split"), lower_only: false, max_events: 100000000, ops: vec![],
             };
             println!("{}", faultrun::run(lts, &o, get("pairs", "50").parse().unwrap()));
             0
